@@ -307,7 +307,9 @@ fn main() {
     rep.set("step_is_gf2_linear_on_all_1_and_2_bit_states", lin_ok);
 
     // (a) all 2^23 mantissas x float ranges
-    let franges: Vec<(f32, f32)> = vec![(0.0, 1.0), (-1.0, 1.0), (-1.23, 4.56), (1000.0, 1001.0), (1e6, 1e6 + 1.0), (-5.0, -4.999), (0.0, 1e-30), (16777215.0, 16777216.0), (-3.0, -1.0), (0.1, 0.3), (-1e-3, 1e3), (255.0, 256.0)];
+    let franges: Vec<(f32, f32)> = vec![(0.0, 1.0), (-1.0, 1.0), (-1.23, 4.56), (1000.0, 1001.0), (1e6, 1e6 + 1.0), (-5.0, -4.999), (0.0, 1e-30), (16777215.0, 16777216.0), (-3.0, -1.0), (0.1, 0.3), (-1e-3, 1e3), (255.0, 256.0),
+        // subnormal ends (nothing to round up? - yes there is), and widths that overflow f32 (the product is inf or NaN)
+        (0.0, 1e-40), (0.0, 7e-45), (1e-40, 2e-40), (-3e38, 3e38), (f32::MIN, f32::MAX)];
     rep.merge(par_range(&cfg, 1 << 23, |m, r| check_f32(m as u32, r, &franges)));
     // (c) Bernoulli
     rep.merge(par_range(&cfg, 1 << 23, |m, r| check_bernoulli(m as u32, r)));
